@@ -1006,16 +1006,7 @@ impl Model {
             MSel::Key(s, k) => json!({"k": "DataKeySelector", "set": self.set_name(*s), "key": self.key_name(*s, *k)}),
             MSel::Data(s, d) => json!({"k": "AnnotationDataSelector", "set": self.set_name(*s), "data": self.data_name(*s, *d)}),
             MSel::Multi(v) | MSel::Composite(v) | MSel::Directional(v) => {
-                let mut subs: Vec<Value> = v
-                    .iter()
-                    .map(|s| {
-                        let mut j = self.sel_json(s);
-                        if let MSel::Ann { off: Some(_), .. } = s {
-                            j["mode"] = json!("-");
-                        }
-                        j
-                    })
-                    .collect();
+                let mut subs: Vec<Value> = v.iter().map(|s| self.sel_json(s)).collect();
                 if !sel.is_directional() {
                     // order of the parts of Multi/Composite selectors is not significant (documented)
                     subs.sort_by_key(|x| x.to_string());
